@@ -62,6 +62,16 @@ class Ref:
         return f"Ref({self.kind}:{self.name})"
 
 
+def _strip_docstrings(tree: ast.AST) -> None:
+    """docstrings of functions and classes carry no behaviour: they are removed once after parsing so that no rule can depend
+    on whether the first statement of a body is a docstring"""
+    for node in ast.walk(tree):
+        if isinstance(node, (ast.FunctionDef, ast.AsyncFunctionDef, ast.ClassDef)) and node.body:
+            first = node.body[0]
+            if isinstance(first, ast.Expr) and isinstance(first.value, ast.Constant) and isinstance(first.value.value, str):
+                node.body = node.body[1:] or [ast.copy_location(ast.Pass(), first)]
+
+
 class ModuleInfo:
     def __init__(self, repo: "Repo", path: Path, name: str, source: Optional[str] = None, rel: Optional[str] = None):
         self.repo = repo
@@ -71,6 +81,7 @@ class ModuleInfo:
         self.source = path.read_text(encoding="utf-8") if source is None else source
         try:
             self.tree = ast.parse(self.source, filename=str(path))
+            _strip_docstrings(self.tree)
         except SyntaxError as e:  # pragma: no cover
             raise AnalysisError(f"cannot parse {path}: {e}")
         self.imports: Dict[str, str] = {}  # local name -> dotted target
